@@ -83,6 +83,8 @@ def apply_red(obj, r):
         return len(t)
     if D.is_dask(t) and "split_every" in r:
         kw["split_every"] = r["split_every"]
+    if D.is_dask(t) and r.get("split_out") is not None:
+        kw["split_out"] = r["split_out"]  # (dask-side keyword: 1 = tree reduction, >1 / True = shuffle based)
     if "with" in r:
         return getattr(t, name)(obj[r["with"]], **kw)
     return getattr(t, name)(**kw)
@@ -246,6 +248,8 @@ def classes(spec):
     if kw.get("numeric_only"):
         yield "numeric_only"
     yield "split_every-%s" % r.get("split_every", "default")
+    if r.get("split_out") is not None:
+        yield "split_out-%s" % r["split_out"]
     if spec.get("pre"):
         yield "pre-" + spec["pre"][0]["op"]
 
@@ -358,6 +362,7 @@ def gen_red(draw, schema):
             kw["dropna"] = draw(st.booleans())
         if draw(st.booleans()):
             kw["normalize"] = draw(st.booleans())
+        r["split_out"] = draw(st.sampled_from([None, None, 1, 1, 2, True]))
     elif name == "mode":
         if series:
             r["col"] = draw(st.sampled_from(names))
@@ -422,6 +427,43 @@ def random_case(draw):
     return {"frame": fs, "clear_div": draw(st.integers(0, 5)) == 0, "pre": pre, "red": red}
 
 
+def grid_cases(tier):
+    """Keyword grids of the tree / shuffle reductions whose steps (chunk, combine, aggregate) each take the user's
+    keywords: every combination over a small fixed frame with missing values, for 1..6 partitions."""
+    import itertools
+
+    cols = [
+        {"kind": "float", "name": "a", "nan": 0.3},
+        {"kind": "str", "name": "b", "nan": 0.3},
+        {"kind": "Int64", "name": "c", "nan": 0.3},
+        {"kind": "key", "name": "d", "card": 3},
+    ]
+    nparts = [1, 2, 3, 5, 6] if tier == "quick" else [1, 2, 3, 4, 5, 6, 9]
+    i = 0
+    for n, se, so in itertools.product(nparts, [2, 3, None, False], [None, 1, 2, True]):
+        frame = {"columns": cols, "index": {"kind": "range", "name": None}, "nrows": 14 if n < 9 else 20, "seed": 3 + n, "partition": {"how": "npartitions", "n": n, "sort": True}}
+        for dropna, sort in itertools.product([None, True, False], [None, True, False]):
+            i += 1
+            col = "abcd"[i % 4]
+            kw = {}
+            if dropna is not None:
+                kw["dropna"] = dropna
+            if sort is not None:
+                kw["sort"] = sort
+            if i % 5 == 0:
+                kw["normalize"] = True
+            r = {"name": "value_counts", "col": col, "kw": kw, "split_every": se, "split_out": so}
+            yield {"frame": frame, "pre": [], "red": r}
+        for dropna in (None, True, False):
+            i += 1
+            r = {"name": "nunique", "col": "abcd"[i % 4], "kw": {} if dropna is None else {"dropna": dropna}, "split_every": se}
+            yield {"frame": frame, "pre": [], "red": r}
+
+
+def grid_nontrivial(spec):
+    return spec["frame"]["partition"]["n"] >= 3 and spec["red"].get("split_every") in (2, 3)
+
+
 SUBCHECKS = [
     Sub(
         "random",
@@ -431,5 +473,15 @@ SUBCHECKS = [
         nontrivial=nontrivial,
         classes=classes,
         doc="random frames x partitionings (incl. empty partitions) x optional filter/projection/assign x one reduction",
+    ),
+    Sub(
+        "grid",
+        check,
+        kind="enum",
+        cases=grid_cases,
+        nontrivial=grid_nontrivial,
+        classes=classes,
+        exhaustive=True,
+        doc="value_counts / nunique: full grid of npartitions x split_every x split_out x dropna x sort over a fixed frame with missing values",
     ),
 ]
